@@ -161,6 +161,9 @@ func init() {
 	// ---- harness-side creation of live values -----------------------------------------
 	def("harness.new-arena", 2, nil, func(h *hist, _ []*entry) {
 		n := 1 + h.n(12)
+		if h.n(4) == 0 {
+			n = 1 + h.n(40)
+		}
 		spare := h.n(8)
 		arr := make([]int, n, n+spare)
 		for i := range arr {
@@ -187,6 +190,9 @@ func init() {
 	})
 	def("harness.new-pairs", 1, nil, func(h *hist, _ []*entry) {
 		n := h.n(14)
+		if h.n(3) == 0 {
+			n = h.n(56)
+		}
 		spare := h.n(4)
 		ps := make(Pairs, n, n+spare)
 		for i := range ps {
@@ -762,6 +768,9 @@ func init() {
 		b := immutable.MapBuilder[int, int](hs)
 		bv := &builderV{hi: hi, add: func(k, v int) { b.Add(k, v) }, build: func() any { return b.Build() }}
 		n := h.n(14)
+		if h.n(3) == 0 {
+			n = h.n(64)
+		}
 		for i := 0; i < n; i++ {
 			bv.add(h.elem(), h.elem())
 		}
@@ -852,6 +861,9 @@ func init() {
 		b := immutable.SetBuilder(hs)
 		bv := &builderV{isSet: true, hi: hi, add: func(k, _ int) { b.Add(k) }, build: func() any { return b.Build() }}
 		n := h.n(14)
+		if h.n(3) == 0 {
+			n = h.n(64)
+		}
 		for i := 0; i < n; i++ {
 			bv.add(h.elem(), 0)
 		}
